@@ -91,3 +91,68 @@ Example C02_example :
   (match q_obj_eval (1#10000000000) o [1; 1#2]%Q with Ok v => map Qred v | Err _ => [] end) = [(3#2); (4#3)]%Q /\
   q_obj_eval (1#10000000000) o [5#2; 1#2]%Q = Err ValueError.
 Proof. vm_compute. split; reflexivity. Qed.
+
+(* ------------------------------------------------------------------------------------------------------
+   Added in build session 4 (statements re-stated from the proof files by harness tooling; each is closed by
+   exact). *)
+From SplipyModel Require Import Model.EvalForms Proofs.EvalFormsProofs.
+Open Scope R_scope.
+Theorem C02_grid_spec :
+  forall (F : Type) (H : Num F) (tol : F) (o : obj F) (lists g : list (list F)),
+         obj_eval_grid tol o lists = Ok g ->
+         length g = prodl (map (length (A:=F)) lists) /\
+         (forall idx : list nat,
+          Forall2 (fun (l : list F) (i : nat) => (i < length l)%nat) lists idx ->
+          obj_eval tol o (tuple_at lists idx) = Ok (nth (ravel (map (length (A:=F)) lists) idx) g [])).
+Proof. exact @grid_spec. Qed.
+Print Assumptions C02_grid_spec.
+
+Theorem C02_pointwise_is_grid_diagonal :
+  forall (F : Type) (H : Num F) (tol : F) (o : obj F) (lists : list (list F)) (m : nat) (g : list (list F)),
+         lists <> [] ->
+         (forall l : list F, In l lists -> length l = m) ->
+         obj_eval_grid tol o lists = Ok g ->
+         obj_eval_pointwise tol o lists = Ok (map (fun i : nat => nth (i * gsum m (length lists)) g []) (seq 0 m)).
+Proof. exact @pointwise_diagonal. Qed.
+Print Assumptions C02_pointwise_is_grid_diagonal.
+
+Theorem C02_pointwise_unequal_lengths :
+  forall (F : Type) (H : Num F) (tol : F) (o : obj F) (l0 : list F) (rest : list (list F)),
+         (exists l : list F, In l rest /\ length l <> length l0) ->
+         obj_eval_pointwise tol o (l0 :: rest) = Err ValueError.
+Proof. exact @pointwise_unequal. Qed.
+Print Assumptions C02_pointwise_unequal_lengths.
+
+Theorem C02_singleton_lists_give_one_point :
+  forall (F : Type) (H : Num F) (tol : F) (o : obj F) (ts : list F),
+         obj_eval_grid tol o (map (fun t : F => [t]) ts) =
+         match obj_eval tol o ts with
+         | Ok v => Ok [v]
+         | Err e => Err e
+         end.
+Proof. exact @grid_singletons. Qed.
+Print Assumptions C02_singleton_lists_give_one_point.
+
+Theorem C02_scalars_give_one_point :
+  forall (F : Type) (H : Num F) (tol : F) (o : obj F) (ts : list F),
+         obj_eval_scalars tol o ts = obj_eval tol o ts.
+Proof. exact @scalars_eval. Qed.
+Print Assumptions C02_scalars_give_one_point.
+
+Theorem C02_grid_value_error_iff :
+  forall (tol : R) (o : obj R) (lists : list (list R)),
+         length lists = o_pardim o ->
+         (obj_eval_grid tol o lists = Err ValueError <->
+          (exists i : nat,
+             (i < o_pardim o)%nat /\
+             b_per1 (nth i (o_bases o) dflt_basis) = 0%nat /\
+             (nth i lists [] = [] \/
+              (exists t : R, In t (nth i lists []) /\ ~ in_dom tol (nth i (o_bases o) dflt_basis) t)))) /\
+         ((forall i : nat,
+           (i < o_pardim o)%nat ->
+           b_per1 (nth i (o_bases o) dflt_basis) = 0%nat ->
+           nth i lists [] <> [] /\ (forall t : R, In t (nth i lists []) -> in_dom tol (nth i (o_bases o) dflt_basis) t)) ->
+          exists g : list (list R), obj_eval_grid tol o lists = Ok g).
+Proof. exact @grid_value_error_iff. Qed.
+Print Assumptions C02_grid_value_error_iff.
+
